@@ -6,6 +6,7 @@ import re
 
 from . import core, corpus, docgen, xmlcanon
 
+NEEDS_FRONTENDS = True
 LEVEL = "exploration"
 TECHNIQUE = "runtime oracle: independent XML parser (expat) applied to every successful output of hostile-string workloads"
 LEVEL_TEXT = ("Held on the outputs observed: every successful transform of ~1e5 generated documents x configurations parsed as "
@@ -143,8 +144,49 @@ def check_case(ctx, case):
     return good
 
 
+def cli_file_stream(ctx):
+    """The svgdx command writing to a file: the *file* must be well-formed whatever it held before (a history of renders to
+    the same path: long output first, then shorter ones; a pre-existing unrelated file)."""
+    import os, shutil, tempfile
+    from . import frontends
+    acc = ctx.acc
+    rng = ctx.rng("cli-files")
+    d = tempfile.mkdtemp(prefix="c02-", dir=core.SCRATCH)
+    try:
+        ip, op = os.path.join(d, "in.xml"), os.path.join(d, "out.svg")
+        for j in range(12 if ctx.quick() else 150):
+            if ctx.out_of_time():
+                break
+            if os.path.exists(op):
+                os.unlink(op)
+            sizes = [rng.choice([40, 25]), rng.choice([1, 2, 3]), rng.choice([10, 1]), rng.choice([30, 2])]
+            if rng.random() < 0.3:
+                open(op, "wb").write(rng.choice([b"X" * 50000, b"<svg>" + b"<g/>" * 5000 + b"</svg>", b""]))
+            for step, m in enumerate(sizes):
+                text, feats = docgen.gen_doc(rng, hostile=0.3, eval_atoms=0.0, max_el=m, root=True)
+                cfg = docgen.gen_cfg(rng, hostile=0.0)
+                data = text.encode("utf-8")
+                open(ip, "wb").write(data)
+                res = frontends.run_cli(core.cli_args(cfg) + [ip, "-o", op], timeout=120)
+                acc.evaluations += 1
+                acc.cases += 1
+                if res.rc != 0 or not os.path.exists(op):
+                    acc.count("cli.failed-run(not judged)")
+                    continue
+                out = open(op, "rb").read()
+                wf, in_root, in_attrs, n_top = root_info(data)
+                case = dict(input=data, cfg=cfg, feats=["cli-file", "history-step-%d" % step], via="svgdx -o FILE (step %d of a history of renders to the same path)" % step)
+                if wf:
+                    check_output(ctx, case, out, in_root, in_attrs, n_top)
+                    acc.nontriv(core.chash("cli-file", ctx.shard, j, step), ["cli-file.step%d" % min(step, 3)])
+                acc.count("cli.file-outputs-parsed")
+    finally:
+        shutil.rmtree(d, ignore_errors=True)
+
+
 def run_shard(ctx):
     acc = ctx.acc
+    cli_file_stream(ctx)
     rng = ctx.rng("docs")
     n = 14000 if ctx.quick() else 300000
     for j in range(n):
